@@ -82,7 +82,11 @@ def make_case(i, rng, tier):
     n = rng.randint(2, 4)
     msgs = []
     for j in range(n):
-        if rng.random() < 0.7:
+        if rng.random() < 0.2:
+            # a malformed message, decoded in warn mode: "the same input with the same arguments" includes these arguments
+            inp, data, _recs, _fam = common.gen_malformed(rng, 10 ** 9, p_wellformed=0.0, allow_random=False)
+            msgs.append(dict(root=inp["root"], data=data, cc=inp["cc"], enc=inp["enc"], label="warn:" + inp["label"], strict=False))
+        elif rng.random() < 0.7:
             msgs.append(enc_message(rng, g))
         else:
             inp = common.gen_input(rng, common.target_for(10 ** 9, rng), k)
@@ -96,7 +100,7 @@ def make_case(i, rng, tier):
     reps = [r % n for r in reps]
     for pos, r in enumerate(reps):
         m = msgs[r]
-        tasks.append(common.spec("d%d_%d" % (pos, r), m["root"], m["data"], m["cc"], m["enc"], strict=True,
+        tasks.append(common.spec("d%d_%d" % (pos, r), m["root"], m["data"], m["cc"], m["enc"], strict=m.get("strict", True),
                                  source=rng.choice(("bytes", "counting", "counting", "gen"))))
     # a stream decode of an exchange built from an encrypted command / response pair, in between
     if rng.random() < 0.5:
@@ -109,11 +113,12 @@ def make_case(i, rng, tier):
     tasks += common.enc_sweep_specs(rng, g, rng.choice((0, 1, 1, 2, 3)))
     probe = rng.randrange(N_PROBES) if rng.random() < 0.04 else None
     pristine = rng.random() < 0.015
+    thr = rng.randrange(1 << 30) if rng.random() < 0.006 else None
     policy = {"ABA": "sequential", "AA": "sequential", "ABCA": "sequential"}.get(hist) if rng.random() < 0.5 else None
     specs, sched = common.perturb(rng, tasks, p_by=0.4)
     if policy == "sequential":
         sched = {"policy": "sequential", "order": [t["id"] for t in specs]}
-    return {"input": {"label": "%s:%s" % (hist, "+".join(m["label"] for m in msgs)), "n": n, "history": hist, "probe": probe, "pristine": pristine},
+    return {"input": {"label": "%s:%s" % (hist, "+".join(m["label"] for m in msgs)), "n": n, "history": hist, "probe": probe, "pristine": pristine, "threads": thr},
             "tasks": specs, "schedule": sched}
 
 
@@ -288,6 +293,11 @@ def check(case):
         check_probe(res, case["input"]["probe"], label)
     else:
         probes()        # make sure the probes exist from the first run of this process on
+    if case["input"].get("threads") is not None:
+        # the decodes of this run again, concurrently in OS threads of a fresh interpreter under a seeded line-level schedule
+        tspecs = [dict(t_, id="%s" % t_["id"]) for t_ in dec if len(t_["data"]) < 3000][:5]
+        if len(tspecs) >= 2:
+            common.check_threads(res, "C12", tspecs, case["input"]["threads"], label=label)
     res.count("comparisons", compared)
     if compared:
         res.nontrivial(sorted(t["data"] for t in dec), res.sched)
